@@ -114,6 +114,14 @@ theorem handlerStatic_CLok (pg : Pages) (rq : Req) (p : Plan) (b : Bytes) (r : R
     · exact encodeStage_CLok rq r' r'.body hr'
     · left; exact hr'
 
+theorem handlerFileObj_CLok (rq : Req) (p : Plan) (b : Bytes) (r : Resp) :
+    CLok (handlerFileObj rq p b r).1 ∨ (handlerFileObj rq p b r).2 ≠ none := by
+  unfold handlerFileObj
+  simp only
+  split
+  · exact encodeStage_CLok rq _ _ (CLok_of_pyNone (by simp))
+  · left; exact CLok_of_pyNone (by simp)
+
 theorem handlerPlain_CLok (rq : Req) (p : Plan) (shape : Shape) (r : Resp)
     (hshape : shape = p.h.shape) (hok : HandlerOk p) (hcl : r.hdrs .contentLength = none)
     (hct : r.hdrs .contentType = some (.ctype p.h.ct none))
@@ -163,6 +171,7 @@ theorem handlerStage_CLok (pg : Pages) (rq : Req) (p : Plan) (hok : HandlerOk p)
   simp only
   split
   · exact handlerStatic_CLok ..
+  · exact handlerFileObj_CLok ..
   · apply handlerPlain_CLok rq p _ _ rfl hok
     · simp [freshResp]
     · simp
@@ -363,10 +372,12 @@ theorem bareResp_Framed (pg : Pages) (r : Resp) : Framed (bareResp pg r) := by
   rw [this, noBody_500]
   exact ⟨pg.bare.length, by simp [bareResp]⟩
 
-theorem handleError_ok (pg : Pages) (rq : Req) (s s' : St) (hc : CacheOk s.cache)
-    (h : handleError pg rq s = some s') : Framed s'.r ∧ CacheOk s'.cache := by
+theorem handleError_ok (pg : Pages) (rq : Req) (fails : Bool) (s s' : St) (hc : CacheOk s.cache)
+    (h : handleError pg rq fails s = some s') : Framed s'.r ∧ CacheOk s'.cache := by
   unfold handleError at h
   have h1 := setError_CLok pg 500 s.r
+  split at h
+  · cases h
   split at h
   · cases h
   · rename_i r heq
@@ -399,17 +410,17 @@ theorem setResponse_ok (pg : Pages) (e : Exn) (r r' : Resp) (h : setResponse pg 
     · cases h
   | exc => simp [setResponse] at h
 
-theorem recover_ok (pg : Pages) (rq : Req) (cached : Bool) (hooks : List Step) (first : St × Option Exn)
+theorem recover_ok (pg : Pages) (rq : Req) (fails cached : Bool) (hooks : List Step) (first : St × Option Exn)
     (s' : St) (hc : CacheOk first.1.cache) (hf : first.2 = none → Framed first.1.r)
-    (h : recover pg rq cached hooks first = some s') : Framed s'.r ∧ CacheOk s'.cache := by
+    (h : recover pg rq fails cached hooks first = some s') : Framed s'.r ∧ CacheOk s'.cache := by
   unfold recover at h
   split at h
   · cases h; exact ⟨hf rfl, hc⟩
-  · exact handleError_ok pg rq _ s' hc h
+  · exact handleError_ok pg rq fails _ s' hc h
   · rename_i s e _
     split at h
     · rename_i r0 _ _
-      exact handleError_ok pg rq ⟨r0, s.cache⟩ s' hc h
+      exact handleError_ok pg rq fails ⟨r0, s.cache⟩ s' hc h
     · rename_i r hset
       have hr := setResponse_ok pg e s.r r hset
       have h2 := hooksAndFinalize_ok pg rq cached hooks { s with r := r } hc hr
@@ -420,7 +431,7 @@ theorem recover_ok (pg : Pages) (rq : Req) (cached : Bool) (hooks : List Step) (
         exact ⟨h2.2 rfl, h2.1⟩
       · rename_i s1 e1 heq
         rw [heq] at h2
-        exact handleError_ok pg rq _ s' h2.1 h
+        exact handleError_ok pg rq fails _ s' h2.1 h
 
 theorem find_ok {c : Option Cache} {rq : Req} {ent : Entry} (hc : CacheOk c)
     (h : c.bind (·.find rq) = some ent) : EntryOk ent := by
@@ -477,7 +488,7 @@ theorem respond_ok (pg : Pages) (rq : Req) (p : Plan) (cache : Option Cache)
   simp only at hf ⊢
   split
   · rename_i s hrec
-    exact recover_ok pg rq cached hooks first s hf.1 hf.2 hrec
+    exact recover_ok pg rq p.t.errFails cached hooks first s hf.1 hf.2 hrec
   · exact ⟨bareResp_Framed pg _, hf.1⟩
 
 end CpProofs.C06
